@@ -39,8 +39,27 @@ class _Sub(ast.NodeTransformer):
     visit_GeneratorExp = visit_SetComp = visit_DictComp = visit_ListComp
 
 
+_FLOATS = ("float", "np.float64", "np.floating", "numpy.float64", "np.double")
+
+
+class _StripFloatConversions(ast.NodeTransformer):
+    """np.asarray(X, dtype=float) / np.array(X, dtype=np.float64) / X.astype(float)  ->  X: the same numbers in floating
+    point (what the symbolic comparison is about)."""
+
+    def visit_Call(self, node):
+        self.generic_visit(node)
+        d = dotted(node.func) or ""
+        if d in ("np.asarray", "np.array", "np.asanyarray", "np.ascontiguousarray", "numpy.asarray", "numpy.array") and len(node.args) == 1:
+            kws = {k.arg: k.value for k in node.keywords}
+            if set(kws) <= {"dtype"} and ("dtype" not in kws or src(kws["dtype"]) in _FLOATS):
+                return node.args[0]
+        if isinstance(node.func, ast.Attribute) and node.func.attr == "astype" and len(node.args) == 1 and src(node.args[0]) in _FLOATS:
+            return node.func.value
+        return node
+
+
 def subst(expr, env):
-    return _Sub(env).visit(clone(expr))
+    return _StripFloatConversions().visit(_Sub(env).visit(clone(expr)))
 
 
 _MUTATORS = {"append", "extend", "insert", "update", "add", "setdefault", "pop", "remove", "clear", "sort", "reverse", "fill", "put"}
